@@ -23,23 +23,32 @@ structure WF (a : Agent) : Prop where
   pfresh : ∀ s ∈ a.pruning, s < a.nextId
   disj   : ∀ s ∈ a.pruning, s ∉ a.streams
   ka     : a.keepalive = true → a.streams ≠ []
+  /-- discovery_schedule asserts a non-empty list whenever the counter is positive -/
+  us     : 0 < a.unsched → a.discovery ≠ []
+  /-- the discovery timer runs only while there are discovery items -/
+  dt     : a.discTimer = true → a.discovery ≠ []
 
 theorem wfb_iff (a : Agent) : wfb a = true ↔ WF a := by
   constructor
   · intro h
     simp only [wfb, Bool.and_eq_true, List.all_eq_true, List.contains_iff_mem, decide_eq_true_eq,
       Bool.or_eq_true, Bool.not_eq_true'] at h
-    obtain ⟨⟨⟨⟨⟨⟨⟨⟨h1, h2⟩, h3⟩, h4⟩, h5⟩, h6⟩, h7⟩, h8⟩, h9⟩ := h
-    refine ⟨h1, h2, h3, ?_, ?_, ?_, h5, h6, h7, ?_, ?_⟩
+    obtain ⟨⟨⟨⟨⟨⟨⟨⟨⟨⟨h1, h2⟩, h3⟩, h4⟩, h5⟩, h6⟩, h7⟩, h8⟩, h9⟩, h12⟩, h13⟩ := h
+    refine ⟨h1, h2, h3, ?_, ?_, ?_, h5, h6, h7, ?_, ?_, ?_, ?_⟩
     · intro r hr hs; have := h4 r hr; simp [hs] at this; exact this
     · intro r hr hs; have := h4 r hr; simp [hs] at this; exact this
     · intro r hr hs; have := h4 r hr; simp [hs] at this; exact this
     · intro s hs hc; have := h8 s hs; simp [hc] at this
     · intro hk he; rcases h9 with h9 | h9 <;> simp_all
+    · intro hu he; rcases h12 with h12 | h12
+      · have : a.unsched = 0 := by simpa using h12
+        omega
+      · simp [he] at h12
+    · intro hd he; rcases h13 with h13 | h13 <;> simp_all
   · intro h
     simp only [wfb, Bool.and_eq_true, List.all_eq_true, List.contains_iff_mem, decide_eq_true_eq,
       Bool.or_eq_true, Bool.not_eq_true']
-    refine ⟨⟨⟨⟨⟨⟨⟨⟨h.disc, h.trig⟩, h.cl⟩, ?_⟩, h.prun⟩, h.fresh⟩, h.pfresh⟩, ?_⟩, ?_⟩
+    refine ⟨⟨⟨⟨⟨⟨⟨⟨⟨⟨h.disc, h.trig⟩, h.cl⟩, ?_⟩, h.prun⟩, h.fresh⟩, h.pfresh⟩, ?_⟩, ?_⟩, ?_⟩, ?_⟩
     · intro r hr
       cases hs : r.st
       · simpa using h.rlive r hr hs
@@ -49,13 +58,19 @@ theorem wfb_iff (a : Agent) : wfb a = true ↔ WF a := by
     · cases hk : a.keepalive
       · left; rfl
       · right; have := h.ka hk; cases hl : a.streams <;> simp_all
+    · by_cases hu : a.unsched = 0
+      · left; simpa using hu
+      · right; have := h.us (by omega); cases hl : a.discovery <;> simp_all
+    · cases hd : a.discTimer
+      · left; rfl
+      · right; have := h.dt hd; cases hl : a.discovery <;> simp_all
 
 theorem WF_init : WF {} := by
   constructor <;> simp
 
 theorem WF_add (a : Agent) (h : WF a) : WF (addStream a).1 := by
-  obtain ⟨h1, h2, h3, h4, h5, h6, h7, h8, h9, h10, h11⟩ := h
-  refine ⟨?_, ?_, ?_, ?_, ?_, ?_, ?_, ?_, ?_, ?_, ?_⟩ <;> simp only [addStream]
+  obtain ⟨h1, h2, h3, h4, h5, h6, h7, h8, h9, h10, h11, h12, h13⟩ := h
+  refine ⟨?_, ?_, ?_, ?_, ?_, ?_, ?_, ?_, ?_, ?_, ?_, h12, h13⟩ <;> simp only [addStream]
   · intro s hs; simp; exact Or.inl (h1 s hs)
   · intro s hs; simp; exact Or.inl (h2 s hs)
   · intro p hp; simp at hp ⊢; rcases hp with hp | hp
@@ -75,8 +90,8 @@ theorem WF_add (a : Agent) (h : WF a) : WF (addStream a).1 := by
   · intro _; simp
 
 theorem WF_close (a : Agent) (sid : Nat) (h : WF a) : WF (closeStream a sid) := by
-  obtain ⟨h1, h2, h3, h4, h5, h6, h7, h8, h9, h10, h11⟩ := h
-  refine ⟨h1, h2, h3, ?_, ?_, ?_, ?_, h8, ?_, ?_, h11⟩ <;> simp only [closeStream]
+  obtain ⟨h1, h2, h3, h4, h5, h6, h7, h8, h9, h10, h11, h12, h13⟩ := h
+  refine ⟨h1, h2, h3, ?_, ?_, ?_, ?_, h8, ?_, ?_, h11, h12, h13⟩ <;> simp only [closeStream]
   · intro r hr hst; simp at hr; exact h4 r hr.1 hst
   · intro r hr hst; simp at hr ⊢; exact ⟨h5 r hr.1 hst, hr.2⟩
   · intro r hr hst; simp at hr ⊢; rcases h6 r hr.1 hst with h | h
@@ -91,11 +106,19 @@ theorem WF_remove (a : Agent) (sid : Nat) (h : WF a) : WF (removeStream a sid) :
   split
   · rename_i hin
     have hin' : sid ∈ a.streams := by simpa using hin
-    obtain ⟨h1, h2, h3, h4, h5, h6, h7, h8, h9, h10, h11⟩ := h
+    obtain ⟨h1, h2, h3, h4, h5, h6, h7, h8, h9, h10, h11, h12, h13⟩ := h
+    have hdt : (a.discTimer && !(a.discovery.filter (· != sid)).isEmpty) = true →
+        a.discovery.filter (· != sid) ≠ [] := by
+      intro hd he
+      simp [he] at hd
+    have hus : 0 < unschedAfter (a.discovery.filter (· != sid)) a.unsched →
+        a.discovery.filter (· != sid) ≠ [] := by
+      intro hu he
+      simp [unschedAfter, he] at hu
     split
     · rename_i hany
       obtain ⟨r0, hr0, hl0⟩ := List.any_eq_true.mp hany
-      refine ⟨?_, ?_, ?_, ?_, ?_, ?_, ?_, ?_, ?_, ?_, ?_⟩ <;> simp only
+      refine ⟨?_, ?_, ?_, ?_, ?_, ?_, ?_, ?_, ?_, ?_, ?_, hus, hdt⟩ <;> simp only
       · intro s hs; simp at hs ⊢; exact ⟨h1 s hs.1, hs.2⟩
       · intro s hs; simp at hs ⊢; exact ⟨h2 s hs.1, hs.2⟩
       · intro p hp; simp at hp ⊢; exact ⟨h3 p hp.1, hp.2⟩
@@ -150,7 +173,7 @@ theorem WF_remove (a : Agent) (sid : Nat) (h : WF a) : WF (removeStream a sid) :
     · rename_i hany
       have hnl : ∀ r ∈ a.refreshes, r.st = .live → r.sid ≠ sid := fun r hr hst e =>
         hany (List.any_eq_true.mpr ⟨r, hr, by simp [isLiveOf, e, hst]⟩)
-      refine ⟨?_, ?_, ?_, ?_, ?_, ?_, ?_, ?_, ?_, ?_, ?_⟩ <;> simp only [closeStream]
+      refine ⟨?_, ?_, ?_, ?_, ?_, ?_, ?_, ?_, ?_, ?_, ?_, hus, hdt⟩ <;> simp only [closeStream]
       · intro s hs; simp at hs ⊢; exact ⟨h1 s hs.1, hs.2⟩
       · intro s hs; simp at hs ⊢; exact ⟨h2 s hs.1, hs.2⟩
       · intro p hp; simp at hp ⊢; exact ⟨h3 p hp.1, hp.2⟩
@@ -175,7 +198,7 @@ theorem WF_freed (a : Agent) (sid : Nat) (st : RState) (h : WF a) : WF (refreshF
   split
   case isFalse => exact h
   rename_i hmem
-  obtain ⟨h1, h2, h3, h4, h5, h6, h7, h8, h9, h10, h11⟩ := h
+  obtain ⟨h1, h2, h3, h4, h5, h6, h7, h8, h9, h10, h11, h12, h13⟩ := h
   have sub : ∀ r ∈ a.refreshes.erase ⟨sid, st⟩, r ∈ a.refreshes := fun r hr => List.mem_of_mem_erase hr
   by_cases hc : st = RState.removing ∧ (!(dropRefresh a ⟨sid, st⟩).refreshes.any (isRemovingOf sid)) = true
   · rw [if_pos hc]
@@ -187,7 +210,7 @@ theorem WF_freed (a : Agent) (sid : Nat) (st : RState) (h : WF a) : WF (refreshF
       have : (a.refreshes.erase ⟨sid, .removing⟩).any (isRemovingOf sid) = true :=
         List.any_eq_true.mpr ⟨r, hr, by simp [isRemovingOf, hh.1, hh.2]⟩
       simp [this] at hnone
-    refine ⟨h1, h2, h3, ?_, ?_, ?_, ?_, h8, ?_, ?_, h11⟩ <;> simp only [closeStream]
+    refine ⟨h1, h2, h3, ?_, ?_, ?_, ?_, h8, ?_, ?_, h11, h12, h13⟩ <;> simp only [closeStream]
     · intro r hr hs; simp only [List.mem_filter] at hr; exact h4 r (sub r hr.1) hs
     · intro r hr hs; simp only [List.mem_filter] at hr
       simp only [List.mem_filter]; refine ⟨h5 r (sub r hr.1) hs, ?_⟩
@@ -205,7 +228,7 @@ theorem WF_freed (a : Agent) (sid : Nat) (st : RState) (h : WF a) : WF (refreshF
   · rw [if_neg hc]
     simp only [dropRefresh] at hc ⊢
     refine ⟨h1, h2, h3, fun r hr => h4 r (sub r hr), fun r hr => h5 r (sub r hr), fun r hr => h6 r (sub r hr),
-      ?_, h8, h9, h10, h11⟩
+      ?_, h8, h9, h10, h11, h12, h13⟩
     intro s hs
     simp only
     by_cases he : (⟨s, RState.removing⟩ : Refresh) = ⟨sid, st⟩
@@ -229,14 +252,31 @@ theorem WF_step (a : Agent) (op : Op) (h : WF a) : WF (step a op) := by
   | gather sid k =>
     simp only [step]; split
     · rename_i hin
-      refine { h with disc := ?_ }
+      have hin' : sid ∈ a.streams ∧ k ≠ 0 := by simpa using hin
+      have hne : a.discovery ++ List.replicate k sid ≠ [] := by
+        intro he
+        have : List.replicate k sid = [] := (List.append_eq_nil_iff.mp he).2
+        simp at this; exact hin'.2 this
+      refine { h with disc := ?_, us := fun _ => hne, dt := fun _ => hne }
       intro s hs; simp at hs; rcases hs with hs | hs
       · exact h.disc s hs
-      · rw [hs.2]; simpa using hin
+      · rw [hs.2]; exact hin'.1
     · exact h
   | discDone sid =>
     simp only [step]
-    exact { h with disc := fun s hs => h.disc s (List.mem_of_mem_erase hs) }
+    refine { h with disc := fun s hs => h.disc s (List.mem_of_mem_erase hs), us := ?_, dt := ?_ }
+    · intro hu he
+      simp only at hu he
+      simp [unschedAfter, he] at hu
+    · intro hd he
+      simp only at hd he
+      simp [he] at hd
+  | sched =>
+    simp only [step]
+    exact { h with us := fun hu => h.us (by simp only at hu; omega) }
+  | discFinished =>
+    simp only [step]
+    exact { h with disc := by simp, us := by simp, dt := by simp }
   | alloc sid =>
     simp only [step]; split
     · rename_i hin
